@@ -306,7 +306,26 @@ pub enum Ran {
     Panic(String),
 }
 
+/// Cycle cap applied to executions that come with the default (2^32 - 1) limit: programs the
+/// harness generates need a few thousand cycles, so a run that gets here is a runaway loop of a
+/// broken VM and comes back as a cycle-limit error (which the oracles then report) instead of
+/// exhausting the machine's memory.
+pub const CYCLE_CAP: u32 = 1 << 20;
+
+pub fn capped(opts: ExecutionOptions) -> ExecutionOptions {
+    if opts.max_cycles() == u32::MAX {
+        let mut o = ExecutionOptions::new(Some(CYCLE_CAP), opts.expected_cycles().min(CYCLE_CAP), opts.enable_tracing()).expect("options");
+        if opts.enable_tracing() {
+            o = o.with_tracing();
+        }
+        o
+    } else {
+        opts
+    }
+}
+
 pub fn run(program: &Program, case: &Case, opts: ExecutionOptions) -> Ran {
+    let opts = capped(opts);
     let mut host = case.host();
     let inputs = case.stack_inputs();
     let r = catch(|| processor::execute(program, inputs, &mut host, opts));
